@@ -4,7 +4,7 @@ patch="$1"; shift
 cd /repo || exit 2
 if ! git diff --quiet -- pyUSID; then echo "/repo has local source changes; refusing"; exit 2; fi
 git apply "$patch" || { echo "patch does not apply"; exit 2; }
-trap 'git -C /repo checkout -- pyUSID' EXIT
+trap 'git -C /repo checkout -- pyUSID; (cd /verif && PYTHONPATH=/repo:/verif/harness /venv/bin/python harness/gen_all.py >/dev/null 2>&1)' EXIT
 for p in "$@"; do
   (cd /verif && ./check "$p" --tier "${TIER:-quick}" 2>&1 | grep -E "VIOLATION|KNOWN-FINDING|exit [01]" | cut -c1-400)
 done
